@@ -84,7 +84,7 @@ const META_RICH: &[&str] = &[
 const LINES: &[&str] = &[
     ">> k: v\n", ">> [mode]: steps\n", ">> [lang]: es\n", ">> [duplicate]: ref\n", ">> [mode]: text\n", "  >> k2: v\n", "\t>> k3: v\n",
     ">> servings: 2\n", ">> time: 1h\n", "step @a{1}\n", "\n", "-- c\n", "[- c -]\n", "= sec\n", "> para\n", ">> k: v2", ">> k:\n", ">>: v\n",
-    "text >> k4: v\n", ">> a: b: c\n", ">> k: v -- c\n", ">> k [- c -]: v\n", ">> k5: v\r\n", "  \n", ">> []: leftover\n", ">> draft\n", ">> [ mode ]: steps\n", ">> [mode]: components\n", "* * *\n\n", "Use @@tomato sauce{} here\n", ">> _internal: 42\n", "Add the salt \\\n", ">>vegan:\n", ">> [foo]: bar\n",
+    "text >> k4: v\n", ">> a: b: c\n", ">> k: v -- c\n", ">> k [- c -]: v\n", ">> k5: v\r\n", "  \n", ">> []: leftover\n", ">> draft\n", ">> [ mode ]: steps\n", ">> [mode]: components\n", "* * *\n\n", "Use @@tomato sauce{} here\n", ">> _internal: 42\n", "Add the salt \\\n", ">>vegan:\n", ">> [foo]: bar\n", ">>\t[chef]: Ann\n", ">> [mode]\u{a0}: steps\n",
 ];
 const HEADS: &[&str] = &["", "---\ntitle: x\n---\n", "---\ntitle: x\nservings: 3\n---\n\n", "\n---\nt: 1\n---\n", "\u{feff}", "\u{feff}---\ntitle: x\n---\n", "---\n---\n", "---\n\n  \n---\n",
     // a front matter whose YAML is refused (unclosed flow sequence; not a mapping): both readers go on without it
